@@ -2,6 +2,8 @@ package props
 
 import (
 	"fmt"
+	"go/token"
+	"go/types"
 
 	"golang.org/x/tools/go/ssa"
 
@@ -283,4 +285,102 @@ func c01LoaderCycles(c *core.Check) {
 	if n == 0 {
 		r.Unknown("images | loader cycles", "-", "no cycle through a url fetcher found")
 	}
+}
+
+// c01BoundedRepeats (R28): memory proportional to a quotient of document lengths is capped.  A function of the
+// gradient code that sizes a slice with an integer converted from a floating point value (a number of repetitions:
+// area / gradient length) allocates only under a comparison with a constant: inside the function, dominating the
+// allocation, or in every caller, dominating the call.
+func c01BoundedRepeats(c *core.Check) {
+	p := c.Prog
+	r := c.Rule("R28", "repetition counts are capped before they size an allocation: in svg and images, every make whose size derives from a float converted to an integer is dominated by a comparison with a constant, in the function itself or at each of its call sites", 2)
+	fromFloat := func(v ssa.Value) bool {
+		return arithDerives(v, func(v ssa.Value) bool {
+			cv, ok := v.(*ssa.Convert)
+			if !ok {
+				return false
+			}
+			from, ok1 := cv.X.Type().Underlying().(*types.Basic)
+			to, ok2 := cv.Type().Underlying().(*types.Basic)
+			return ok1 && ok2 && from.Info()&types.IsFloat != 0 && to.Info()&types.IsInteger != 0
+		})
+	}
+	constCmpDominating := func(fn *ssa.Function, at ssa.Instruction) bool {
+		for _, b := range fn.Blocks {
+			if len(b.Instrs) == 0 {
+				continue
+			}
+			ifi, ok := b.Instrs[len(b.Instrs)-1].(*ssa.If)
+			if !ok {
+				continue
+			}
+			for _, a := range core.IfCondAtoms(ifi.Cond) {
+				bo, ok := a.(*ssa.BinOp)
+				if !ok {
+					continue
+				}
+				switch bo.Op {
+				case token.LSS, token.LEQ, token.GTR, token.GEQ:
+				default:
+					continue
+				}
+				kx, okx := constNumber(bo.X)
+				ky, oky := constNumber(bo.Y)
+				if !(okx && kx >= 100 || oky && ky >= 100) {
+					continue
+				}
+				if b != at.Block() && b.Dominates(at.Block()) {
+					return true
+				}
+			}
+		}
+		return false
+	}
+	n := 0
+	for _, pkg := range []string{"svg", "images"} {
+		for _, fn := range p.FuncsOfPkg(pkg) {
+			if fn.Blocks == nil {
+				continue
+			}
+			var makes []*ssa.MakeSlice
+			core.Instrs(fn, func(in ssa.Instruction) {
+				if ms, ok := in.(*ssa.MakeSlice); ok && (fromFloat(ms.Len) || fromFloat(ms.Cap)) {
+					makes = append(makes, ms)
+				}
+			})
+			for i, ms := range makes {
+				n++
+				key := fmt.Sprintf("%s | allocation sized by a converted float #%d", core.FuncName(fn), i+1)
+				if constCmpDominating(fn, ms) {
+					r.OK(key, p.Pos(ms.Pos()), "under a comparison with a constant in the function")
+					continue
+				}
+				sites, capped := 0, 0
+				for _, caller := range p.ModFuncs {
+					core.Instrs(caller, func(in ssa.Instruction) {
+						if ci, ok := in.(ssa.CallInstruction); ok && ci.Common().StaticCallee() == fn {
+							sites++
+							if constCmpDominating(caller, in) {
+								capped++
+							}
+						}
+					})
+				}
+				r.Cond(sites > 0 && capped == sites, key, p.Pos(ms.Pos()), fmt.Sprintf("each of the %d call sites is under a comparison with a constant", sites), fmt.Sprintf("%d of %d call sites are under a comparison with a constant: a gradient a millionth of the area long allocates one colour stop per repetition (out of memory)", capped, sites))
+			}
+		}
+	}
+	if n == 0 {
+		r.Unknown("svg, images | allocations sized by a converted float", "-", "none found")
+	}
+}
+
+func constNumber(v ssa.Value) (float64, bool) {
+	if f, ok := core.ConstFloat(v); ok {
+		return f, true
+	}
+	if i, ok := core.ConstInt(v); ok {
+		return float64(i), true
+	}
+	return 0, false
 }
